@@ -18,7 +18,7 @@ fn spec(t: Tier) -> Spec {
     Spec {
         id: "C13",
         level: "exploration",
-        rule: format!("(1) a sandbox holding every creatable entry kind (regular empty/non-empty/setuid, hard-link pair, empty and non-empty directory, fifo, socket, symbolic links to each of them, to a link, to a file outside, dangling; link owners differ from target owners; ids 0, 1, 54321, 2^31) is walked under -P, -H, -L from the directory (entries at depth >= 1) and with every entry as its own starting point (depth 0); on every visited entry every test of the vocabulary (-type/-xtype x 7 letters, -links/-inum/-uid/-gid N,+N,-N around the real values, -user/-group by name and number, -empty, -samefile against every entry, -lname '*', 8 -perm operands) is evaluated in comma-list runs of the real find and compared with the oracle computed from lstat()/stat() of the materialised entry (stat-else-lstat where the mode follows at that depth; -xtype the opposite choice; -lname only where the selected record is still a link). (2) {pm} files (and directories in thorough) carrying every permission value x octal operands ({ops}) x forms MODE, -MODE, /MODE against the bit formula. (3) symbolic operands: every sequence of <= {sq} clauses over who x op x perms (chmod semantics applied to 0, umask 0; includes copies like g=u and clauses that remove bits) — the mask the code derives is read off the selection on 25 probe files for -SYM and /SYM and on all 4096 files for SYM, and must equal the reference value. evaluation = (entry, test); non-trivial = test on a symbolic link or with a symbolic operand or a permission test", pm = 4096, ops = t.pick("every mask with <= 3 or >= 10 bits set, class masks: 386", "all 4096"), sq = t.pick("1 (all 432) and 2 over a 54-clause subset", "2 (all 432^2)")),
+        rule: format!("(1) a sandbox holding every creatable entry kind (regular empty/non-empty/setuid, hard-link pair, empty and non-empty directory, fifo, socket, symbolic links to each of them, to a link, to a file outside, dangling; link owners differ from target owners; ids 0, 1, 54321, 2^31) is walked under -P, -H, -L from the directory (entries at depth >= 1) and with every entry as its own starting point (depth 0); on every visited entry every test of the vocabulary (-type/-xtype x 7 letters, -links/-inum/-uid/-gid N,+N,-N around the real values and those values plus 2^32, -user/-group by name and number, -empty, -samefile against every entry, -lname '*', 8 -perm operands) is evaluated in comma-list runs of the real find and compared with the oracle computed from lstat()/stat() of the materialised entry (stat-else-lstat where the mode follows at that depth; -xtype the opposite choice; -lname only where the selected record is still a link). (2) {pm} files (and directories in thorough) carrying every permission value x octal operands ({ops}) x forms MODE, -MODE, /MODE against the bit formula. (3) symbolic operands: every sequence of <= {sq} clauses over who x op x perms (chmod semantics applied to 0, umask 0; includes copies like g=u and clauses that remove bits) — the mask the code derives is read off the selection on 25 probe files for -SYM and /SYM and on all 4096 files for SYM, and must equal the reference value. evaluation = (entry, test); non-trivial = test on a symbolic link or with a symbolic operand or a permission test", pm = 4096, ops = t.pick("every mask with <= 3 or >= 10 bits set, class masks: 386", "all 4096"), sq = t.pick("1 (all 432) and 2 over a 54-clause subset", "2 (all 432^2)")),
         bound: json!({"follow": ["-P","-H","-L"], "perm_values": 4096, "octal_operands": t.pick(386, 4096), "symbolic_clauses": 432, "symbolic_sequences": t.pick("432 + 54^2", "432 + 432^2")}),
         assumptions: vec![
             "a -samefile reference that is itself a symbolic link is judged under -P (lstat) and -L (stat) only; under -H it is run for determinism".into(),
@@ -143,6 +143,12 @@ fn kind_tests(all_paths: &[String]) -> Vec<KTest> {
             ids.insert(st.gid as u64);
         }
     }
+    // operands that only differ from a real value above bit 31 (ids are 32-bit, operands are not)
+    for base in [0u64, 1, 54321, 1 << 31] {
+        ids.insert(base + (1 << 32));
+    }
+    nl.insert(1 + (1u64 << 32));
+    nl.insert(2 + (1u64 << 32));
     let forms = |vals: &BTreeSet<u64>, around: bool| -> Vec<(String, u64, u8)> {
         let mut o = vec![];
         let mut vs: BTreeSet<u64> = vals.clone();
